@@ -71,13 +71,14 @@ type termKey struct {
 
 // Terms is a hash-consing table. Not safe for concurrent use: one per worker.
 type Terms struct {
-	tab     map[termKey]*Term
-	next    int
-	True    *Term
-	False   *Term
-	small   [65][]*Term // cached small constants per width
-	maxMemo map[int]uint64
-	Vars    []*Term
+	tab      map[termKey]*Term
+	next     int
+	True     *Term
+	False    *Term
+	small    [65][]*Term // cached small constants per width
+	maxMemo  map[int]uint64
+	hashMemo map[int]uint64
+	Vars     []*Term
 }
 
 func NewTerms() *Terms {
@@ -138,6 +139,32 @@ func (ts *Terms) Const(w int, v uint64) *Term {
 		return c[v]
 	}
 	return ts.mk(OpConst, w, v, "", nil)
+}
+
+// StructHash is a hash of the term's structure, independent of the table it lives in.
+func (ts *Terms) StructHash(t *Term) uint64 {
+	if ts.hashMemo == nil {
+		ts.hashMemo = map[int]uint64{}
+	}
+	if h, ok := ts.hashMemo[t.ID]; ok {
+		return h
+	}
+	h := uint64(14695981039346656037)
+	mix := func(x uint64) {
+		h ^= x
+		h *= 1099511628211
+	}
+	mix(uint64(t.Op))
+	mix(uint64(t.W))
+	mix(t.K)
+	for i := 0; i < len(t.Name); i++ {
+		mix(uint64(t.Name[i]))
+	}
+	for _, a := range t.Args {
+		mix(ts.StructHash(a))
+	}
+	ts.hashMemo[t.ID] = h
+	return h
 }
 
 func (ts *Terms) Bool(b bool) *Term {
